@@ -154,3 +154,22 @@ CHECKS["C20"] = {
     ],
     "expected_probes": ["rejected", "accepted_with_correct_graph", "full_position_sweeps", "hostile_symlink", "hostile_parent", "hostile_absolute", "unpack_frame_swap", "loadarchive_wrongkey", "loaddir_mf_sha", "key_swaptype"],
 }
+
+CHECKS["C05"] = {
+    "engine": "sched",
+    "harness": "c05",
+    "packages": ["cypher/models/pgsql/translate", "cypher/models/pgsql/optimize", "cypher/models/pgsql/format", "cypher/models/pgsql", "cypher/models/walk", "cypher/models/cypher"],
+    "rules": "fnentry",
+    "level": "exploration",
+    "budget": {"quick": 30, "thorough": 600},
+    "rule": "one evaluation = one seeded simulated run: 2-5 tasks translate queries from the repository's own corpus (-- case: lines of cypher/models/pgsql/test/translation_cases/*.sql read from /repo at run time, with their parameter blocks, plus 4 extra queries); two thirds of the tasks share ONE AST value and ONE parameter map; all share one kind mapper; a task may get a mapper error or a context cancellation on its k-th mapper call. translate/optimize/format/walk/cypher are instrumented with a scheduling point at every function entry, so the seeded scheduler interleaves concurrent translations at function granularity. "
+            "Non-trivial = a contended decision switched tasks or a fault fired; distinct = distinct (workload, decision sequence) hashes, union over workers (cap 2M per worker).",
+    "real": ["cypher/frontend (parse)", "pgsql/optimize", "pgsql/translate", "pgsql/format", "models/walk", "cypher.Copy (instrumented: yield at every function entry)"],
+    "stubs": ["sim kind mapper (pure function of the kind name; scheduling + fault point)"],
+    "assumptions": SCHED_ASSUME + [
+        "PARTIAL CLAIM: determinism, caller-state preservation and bounded return over the repository's corpus and a few builder-style queries; totality over all ASTs is a for-all-inputs claim this technique does not settle",
+        "interleaving granularity is the function call (plus the race probe on real threads for finer-grained sharing)",
+        "Go's per-iteration map order randomisation is sampled (3 repeated solo runs per query), not controlled",
+    ],
+    "expected_probes": ["runs_with_shared_ast", "faulted_calls_returned_error", "maperr", "cancel"],
+}
